@@ -8,7 +8,7 @@ group parameters:
   kind            'planar' | 'volumetric' | 'image'
   tracking_uid, tracking_id
   finding_type, finding_category   code (value, scheme) | None
-  finding_sites   [code]
+  finding_sites   [code]; lateralities [code | None] (modifier below the site item: not a site); method code | None
   ref             {'type': 'region2d', 'graphic', 'source': (cls, inst)}
                   {'type': 'region3d', 'graphic'}
                   {'type': 'segframe', 'seg': (cls, inst), 'frames': [..], 'segment', 'source': (cls, inst)}
@@ -40,6 +40,8 @@ MEAS = [('M1', '99VERIF'), ('M2', '99VERIF'), ('M3', '99VERIF')]
 EVALS = [('Q1', '99VERIF'), ('Q2', '99VERIF')]
 ANSWERS = [('A1', '99VERIF'), ('A2', '99VERIF')]
 PURPOSES = [('P1', '99VERIF')]
+METHODS_ = [('MM1', '99VERIF'), ('MM2', '99VERIF')]
+LATERALITIES = [('S2', '99VERIF'), ('L9', '99VERIF')]    # S2 is also a site code: a laterality is not a finding site
 G2D = ['POINT', 'POLYLINE', 'CIRCLE', 'ELLIPSE']
 G3D_REGION = ['POINT', 'POLYGON', 'ELLIPSE', 'POLYLINE']
 G3D_SURFACE = ['ELLIPSOID', 'POINT', 'POLYGON', 'ELLIPSE']
@@ -90,10 +92,12 @@ def group_params(r, pool, idx, kinds=('planar', 'volumetric', 'image')):
     kind = r.choice(kinds)
     g = {'kind': kind, 'tracking_uid': f'{pool["base"]}.9.{idx}', 'tracking_id': f'lesion {idx}',
          'finding_type': r.choice(FINDINGS + [None]), 'finding_category': r.choice(CATEGORIES + [None, None]),
-         'finding_sites': r.sample(SITES, r.choice([0, 0, 1, 1, 2])),
+         'finding_sites': r.sample(SITES, r.choice([0, 0, 1, 1, 2])), 'method': r.choice(METHODS_ + [None, None]),
+         'lateralities': [],
          'measurements': [(r.choice(MEAS), r.randint(-40, 40) / 4, ('mm', 'UCUM')) for _ in range(r.choice([0, 1, 1, 2]))],
          'evaluations': [(r.choice(EVALS), r.choice(ANSWERS)) for _ in range(r.choice([0, 0, 1, 2]))],
          'geometric_purpose': None, 'template': r.random() < 0.6}
+    g['lateralities'] = [r.choice(LATERALITIES + [None, None]) for _ in g['finding_sites']]
     if r.random() < 0.15:
         # a tracking UID shared with another group (filters must return every match)
         g['tracking_uid'] = f'{pool["base"]}.9.0'
@@ -146,7 +150,9 @@ def build_group(r, g):
         tracking_identifier=sr.TrackingIdentifier(uid=g['tracking_uid'], identifier=g['tracking_id']),
         finding_type=cc(g['finding_type']) if g['finding_type'] else None,
         finding_category=cc(g['finding_category']) if g['finding_category'] else None,
-        finding_sites=[sr.FindingSite(anatomic_location=cc(s)) for s in g['finding_sites']] or None,
+        method=cc(g['method']) if g['method'] else None,
+        finding_sites=[sr.FindingSite(anatomic_location=cc(s), laterality=cc(lat) if lat else None)
+                       for s, lat in zip(g['finding_sites'], g['lateralities'])] or None,
         measurements=[sr.Measurement(name=cc(n), value=v, unit=cc(u)) for n, v, u in g['measurements']] or None,
         qualitative_evaluations=[sr.QualitativeEvaluation(name=cc(n), value=cc(v)) for n, v in g['evaluations']] or None,
     )
@@ -272,6 +278,8 @@ def items_of(g):
         out.append(it('276214006|SCT', 'CODE', 'CONTAINS', code(g['finding_category'])))
     if g['finding_type']:
         out.append(it('121071|DCM', 'CODE', 'CONTAINS', code(g['finding_type'])))
+    if g['method']:
+        out.append(it('370129005|SCT', 'CODE', 'CONTAINS', code(g['method'])))
     for s in g['finding_sites']:
         out.append(it('363698007|SCT', 'CODE', 'HAS CONCEPT MOD', code(s)))
     for n, v, u in g['measurements']:
